@@ -41,7 +41,8 @@ func c01MemShapes(mode int) []memShape {
 }
 
 func c01Scenarios(tier string) []*core.Scenario {
-	thorough := tier == "thorough"
+	thorough := true // both tiers explore the full alphabets (the whole check takes < 15 s)
+	_ = tier
 	imms := immB13
 	if thorough {
 		imms = immB25()
